@@ -104,6 +104,25 @@ theorem invisible_before_rename (ops : List FOp) (hs : safeSeq ops = true) (pre 
       cases op <;> simp only [step] <;> (try split) <;> simp_all
   exact H {} pre rfl hn
 
+/-- what is found under the final name at a cut point, for a reader / after a kill (`cache := true`) or after a power loss
+    (`cache := false`): the new file once the rename has happened, otherwise whatever was there before (`old`, a complete value or
+    nothing - a safe sequence performs no operation on the final name before the rename) -/
+def finalView (old : Option Nat) (s : St) (cache : Bool) : Option Nat :=
+  if s.renamed then some (if cache then s.oscache else s.durable) else old
+
+/-- **old or new, never a mixture**: at every cut point of a safe write (in particular of an overwrite), under both crash
+    adversaries, the key shows its previous complete value or the complete new value -/
+theorem old_or_new (ops : List FOp) (hs : safeSeq ops = true) (pre post : List FOp) (hsplit : ops = pre ++ post)
+    (old : Option Nat) (cache : Bool) :
+    finalView old (run {} pre) cache = old ∨ finalView old (run {} pre) cache = some (valueSize ops) := by
+  unfold finalView
+  cases hr : (run {} pre).renamed with
+  | false => left; simp
+  | true =>
+    right
+    have h := visible_implies_complete ops hs pre post hsplit hr
+    cases cache <;> simp [h.1, h.2]
+
 /-! ### bridge: the write sequences of the code as it is now are safe -/
 open Jug.Generated.Dump
 
